@@ -336,9 +336,9 @@ func (e *kvElection) verifyLeadershipAfterReconnect() {
 }
 
 func (e *kvElection) handleReconnectVerificationFailed(err error) {
-	e.mu.Lock()
-	defer e.mu.Unlock()
-
+	// Do not hold e.mu here: becomeFollower takes it itself (and the RLock below
+	// would block behind it as well), so holding it deadlocked the election on
+	// every failed verification.
 	if e.isLeader.Load() {
 		log := e.getLogger()
 		log.Error("demoting_due_to_reconnect_verification_failure",
@@ -348,7 +348,9 @@ func (e *kvElection) handleReconnectVerificationFailed(err error) {
 			)...,
 		)
 
-		e.becomeFollower()
+		if !e.becomeFollower() {
+			return
+		}
 
 		e.mu.RLock()
 		onDemote := e.onDemote
